@@ -130,6 +130,10 @@ func Load(o LoadOpts) (*World, error) {
 				kind = "a fresh object built under a new name is built under the name it is copied to: "
 			}
 			if len(subs) == 0 {
+				ov, subs = w.coalesceResultCopies(o.Overlay)
+				kind = "a search written with a new local whose value is copied to a known variable at every exit is written with that variable: "
+			}
+			if len(subs) == 0 {
 				ov, subs = w.expandReassignedAliases(o.Overlay)
 				kind = "a local that only ever holds one expression is replaced by it: "
 			}
